@@ -5205,6 +5205,7 @@ func (t *Terminal) Loop() error {
 					if t.canPreview() {
 						valid, list := t.buildPlusList(t.previewOpts.command, false)
 						if valid {
+							focusedIndex = t.currentIndex()
 							t.enqueuePreview(t.previewOpts.command, list)
 						}
 					} else {
